@@ -11,23 +11,704 @@ variable {β : Type} [DecidableEq β]
 
 def HImp.dflt (vd : β) : HRec β := ⟨0, 0, vd⟩
 
+set_option linter.unusedSectionVars false
+
+namespace HImpEq
+
+theorem flatMap_congr' {α γ : Type} {f g : α → List γ} :
+    ∀ {l : List α}, (∀ a ∈ l, f a = g a) → l.flatMap f = l.flatMap g
+  | [], _ => rfl
+  | a :: l, h => by
+    rw [List.flatMap_cons, List.flatMap_cons, h a (by simp),
+      flatMap_congr' (fun x hx => h x (List.mem_cons_of_mem _ hx))]
+
+theorem rd_image (vd : β) (s : HSet β) {i : Nat} (h1 : 1 ≤ i) (h2 : i ≤ s.slots) :
+    HImp.rd (HImp.dflt vd) (s.image vd) i = s.recAt vd (i - 1) := by
+  unfold HImp.rd
+  rw [if_neg (by omega), List.getD_eq_getElem?_getD,
+    HSet.image_recs_getElem? vd s (show i - 1 < s.slots by omega)]
+  rfl
+
+theorem rdB_image (vd : β) (s : HSet β) {b : Nat} (hb : b < s.slots) :
+    HImp.rdB (HImp.dflt vd) (s.image vd) b = s.recAt vd b := by
+  unfold HImp.rdB
+  rw [List.getD_eq_getElem?_getD, HSet.image_recs_getElem? vd s hb]
+  rfl
+
+theorem recAt_bucket (vd : β) (s : HSet β) (j : Nat) :
+    (s.recAt vd j).bucket = HSet.headOf (s.chains.getD j []) := by
+  unfold HSet.recAt
+  simp only
+  split
+  · rfl
+  · split <;> rfl
+
+theorem rdB_bucket (vd : β) (s : HSet β) {b : Nat} {ch : List (Nat × β)} (hb : s.chains[b]? = some ch) :
+    (HImp.rdB (HImp.dflt vd) (s.image vd) b).bucket = HSet.headOf ch := by
+  have hlt : b < s.slots := by
+    unfold HSet.slots
+    exact (List.getElem?_eq_some_iff.1 hb).1
+  rw [rdB_image vd s hlt, recAt_bucket, List.getD_eq_getElem?_getD, hb]
+  rfl
+
+/-- Reading a live slot. -/
+theorem rd_live (vd : β) (s : HSet β) (h : s.LayoutOk) {pre : List (Nat × β)} {e : Nat × β}
+    {rest : List (Nat × β)} (hm : pre ++ e :: rest ∈ s.chains) :
+    e.1 ≠ 0 ∧ HImp.rd (HImp.dflt vd) (s.image vd) e.1 =
+      ⟨HSet.headOf (s.chains.getD (e.1 - 1) []), HSet.headOf rest, e.2⟩ := by
+  have hnd0 := List.nodup_append.1 h.nodup
+  have hmem : e.1 ∈ s.liveSlots :=
+    List.mem_map.2 ⟨e, List.mem_flatMap.2 ⟨_, hm, by simp⟩, rfl⟩
+  have hr := h.range e.1 (by simp [hmem])
+  refine ⟨by omega, ?_⟩
+  rw [rd_image vd s hr.1 hr.2]
+  have hcn := chainsNext_mem hnd0.1 hm
+  have : e.1 - 1 + 1 = e.1 := by omega
+  exact HSet.recAt_live vd s (this.symm ▸ hcn)
+
+theorem scan_image (vd : β) (s : HSet β) (h : s.LayoutOk) (v : β) :
+    ∀ rest pre : List (Nat × β), pre ++ rest ∈ s.chains → ∀ fuel, rest.length ≤ fuel →
+      HImp.scan (HImp.dflt vd) (s.image vd) v fuel (HSet.headOf rest) = HSet.chainHas rest v := by
+  intro rest
+  induction rest with
+  | nil =>
+    intro _ _ fuel _
+    cases fuel <;> simp [HImp.scan, HSet.headOf, HSet.chainHas]
+  | cons e rest ih =>
+    intro pre hm fuel hf
+    simp only [List.length_cons] at hf
+    obtain ⟨f, rfl⟩ : ∃ f, fuel = f + 1 := ⟨fuel - 1, by omega⟩
+    obtain ⟨h0, hrd⟩ := rd_live vd s h hm
+    have hih := ih (pre ++ [e]) (by simpa using hm) f (by omega)
+    show HImp.scan _ _ v (f + 1) e.1 = _
+    unfold HImp.scan
+    rw [if_neg h0, hrd]
+    simp only [hih]
+    by_cases hv : e.2 = v
+    · simp [hv, HSet.chainHas]
+    · simp [hv, HSet.chainHas]
+
+theorem chainVals_image (vd : β) (s : HSet β) (h : s.LayoutOk) :
+    ∀ rest pre : List (Nat × β), pre ++ rest ∈ s.chains → ∀ fuel, rest.length ≤ fuel →
+      HImp.chainVals (HImp.dflt vd) (s.image vd) fuel (HSet.headOf rest) = rest.map (·.2) := by
+  intro rest
+  induction rest with
+  | nil =>
+    intro _ _ fuel _
+    cases fuel <;> simp [HImp.chainVals, HSet.headOf]
+  | cons e rest ih =>
+    intro pre hm fuel hf
+    simp only [List.length_cons] at hf
+    obtain ⟨f, rfl⟩ : ∃ f, fuel = f + 1 := ⟨fuel - 1, by omega⟩
+    obtain ⟨h0, hrd⟩ := rd_live vd s h hm
+    have hih := ih (pre ++ [e]) (by simpa using hm) f (by omega)
+    show HImp.chainVals _ _ (f + 1) e.1 = _
+    unfold HImp.chainVals
+    rw [if_neg h0, hrd]
+    simp only [hih, List.map_cons]
+
+/-- Every chain is at most `slots` long. -/
+theorem chain_length_le (s : HSet β) (h : s.LayoutOk) {ch : List (Nat × β)} (hm : ch ∈ s.chains) :
+    ch.length ≤ s.slots := by
+  have hnd := List.nodup_append.1 h.nodup
+  have h1 : s.liveSlots.length ≤ s.slots :=
+    length_le_of_nodup_range _ _ hnd.1 (fun i hi => h.range i (by simp [hi]))
+  obtain ⟨j, hj⟩ := List.mem_iff_getElem?.1 hm
+  obtain ⟨rest, p1, _⟩ := HSet.flatMap_set_perm s.chains j ch hj
+  have := p1.length_eq
+  simp only [HSet.liveSlots, List.length_map, this, List.length_append] at h1
+  omega
+
+/-! ### Writing: the image is determined by its header and records -/
+
+theorem image_ext (vd : β) (s' : HSet β) (img : HImage β) (hh : img.hdr = s'.hdr)
+    (hl : img.recs.length = s'.slots)
+    (hr : ∀ j, j < s'.slots → img.recs[j]? = some (s'.recAt vd j)) : img = s'.image vd := by
+  obtain ⟨hd, recs⟩ := img
+  simp only at hh hl hr
+  subst hh
+  have : recs = (s'.image vd).recs := by
+    apply List.ext_getElem?
+    intro j
+    by_cases hj : j < s'.slots
+    · rw [hr j hj, HSet.image_recs_getElem? vd s' hj]
+    · rw [List.getElem?_eq_none (by omega),
+        List.getElem?_eq_none (by rw [HSet.image_recs_length]; omega)]
+  rw [this]
+  rfl
+
+/-- `next` and `val` registers of slot `i`. -/
+def slotReg (vd : β) (s : HSet β) (i : Nat) : Nat × β :=
+  match chainsNext s.chains i with
+  | some r => r
+  | none =>
+    match freeNext s.seq s.free i with
+    | some n => (n, vd)
+    | none => (0, vd)
+
+theorem recAt_eq (vd : β) (s : HSet β) (j : Nat) :
+    s.recAt vd j = ⟨HSet.headOf (s.chains.getD j []), (slotReg vd s (j + 1)).1,
+      (slotReg vd s (j + 1)).2⟩ := by
+  unfold HSet.recAt slotReg
+  cases chainsNext s.chains (j + 1) with
+  | some r => obtain ⟨n, v⟩ := r; rfl
+  | none => cases freeNext s.seq s.free (j + 1) <;> rfl
+
+theorem chainNext_cons_ne {e : Nat × β} {l : List (Nat × β)} {k : Nat} (hk : k ≠ e.1) :
+    chainNext (e :: l) k = chainNext l k := by
+  cases l with
+  | nil => simp [chainNext, hk]
+  | cons e' l => simp [chainNext, hk]
+
+theorem freeNext_cons_ne' {term a k : Nat} {l : List Nat} (hk : k ≠ a) :
+    freeNext term (a :: l) k = freeNext term l k := by
+  cases l with
+  | nil => simp [freeNext, hk]
+  | cons b l => simp [freeNext, hk]
+
+theorem chainsNext_set_congr {chains : List (List (Nat × β))} {b : Nat} {ch ch' : List (Nat × β)}
+    {k : Nat} (hch : chains[b]? = some ch) (he : chainNext ch' k = chainNext ch k) :
+    chainsNext (chains.set b ch') k = chainsNext chains k := by
+  induction chains generalizing b with
+  | nil => simp at hch
+  | cons c cs ih =>
+    cases b with
+    | zero =>
+      simp at hch; subst hch
+      simp [chainsNext, he]
+    | succ b =>
+      simp at hch
+      simp [chainsNext, ih hch]
+
+theorem headOf_set_getD {chains : List (List (Nat × β))} {b : Nat} (hb : b < chains.length)
+    (c' : List (Nat × β)) (j : Nat) :
+    HSet.headOf ((chains.set b c').getD j []) =
+      if j = b then HSet.headOf c' else HSet.headOf (chains.getD j []) := by
+  rw [List.getD_eq_getElem?_getD, List.getD_eq_getElem?_getD, List.getElem?_set]
+  by_cases hj : j = b
+  · subst hj; simp [hb]
+  · rw [if_neg (fun e => hj e.symm), if_neg hj]
+
+/-- Records of the state after linking a fresh slot `i` at the head of chain `b`. -/
+theorem recAt_insert (vd : β) (s s' : HSet β) {b i : Nat} {v : β} {ch : List (Nat × β)}
+    (hch : s.chains[b]? = some ch) (hc' : s'.chains = s.chains.set b ((i, v) :: ch))
+    (hnd' : s'.liveSlots.Nodup)
+    (hfree : ∀ k, k ≠ i → freeNext s'.seq s'.free k = freeNext s.seq s.free k) (j : Nat) :
+    s'.recAt vd j = ⟨if j = b then i else (s.recAt vd j).bucket,
+      if j + 1 = i then HSet.headOf ch else (s.recAt vd j).next,
+      if j + 1 = i then v else (s.recAt vd j).val⟩ := by
+  have hb : b < s.chains.length := (List.getElem?_eq_some_iff.1 hch).1
+  rw [recAt_eq vd s', recAt_eq vd s, hc', headOf_set_getD hb]
+  have hh : HSet.headOf ((i, v) :: ch) = i := rfl
+  rw [hh]
+  by_cases hj : j + 1 = i
+  · have hm : [] ++ (i, v) :: ch ∈ s'.chains := by
+      rw [hc']; exact List.mem_of_getElem? (i := b) (by rw [List.getElem?_set]; simp [hb])
+    have := chainsNext_mem hnd' hm
+    simp only at this
+    have hs : slotReg vd s' (j + 1) = (HSet.headOf ch, v) := by
+      unfold slotReg; rw [hj, this]
+    simp only [hs, if_pos hj]
+  · have h1 : chainsNext s'.chains (j + 1) = chainsNext s.chains (j + 1) := by
+      rw [hc']
+      exact chainsNext_set_congr hch (chainNext_cons_ne hj)
+    have hs : slotReg vd s' (j + 1) = slotReg vd s (j + 1) := by
+      unfold slotReg; rw [h1, hfree _ hj]
+    simp only [hs, if_neg hj]
+
+theorem modify_getElem? {α : Type} (l : List α) (i j : Nat) (f : α → α) :
+    (l.modify i f)[j]? = if i = j then l[j]?.map f else l[j]? := by
+  rw [List.getElem?_modify]
+  by_cases h : i = j
+  · simp [h]
+  · simp [h]
+
+/-- `add_node` on the image: the header of the allocated state, and the new slot's record written. -/
+theorem addNode_image (hash : β → Nat) (vd : β) (s : HSet β) (h : s.Inv hash) (hlt : s.size < s.cap)
+    (v : β) {s1 : HSet β} {i : Nat} (ha : s.alloc = .ok (s1, i)) :
+    HImp.addNode (HImp.dflt vd) (s.image vd) v =
+      some (⟨s1.hdr, (s.image vd).recs.modify (i - 1) (fun r => { r with val := v, next := 0 })⟩, i) ∧
+    (∀ k, k ≠ i → freeNext s1.seq s1.free k = freeNext s.seq s.free k) := by
+  have hnd := h.nodup
+  have hr := h.range
+  have hc := h.count
+  have hse := h.size_eq
+  have hsl := h.seq_le
+  have hcl := h.cap_le
+  have hslt := h.slots_lt
+  have e2 : (s.image vd).hdr.seq = s.seq := rfl
+  have e3 : (s.image vd).hdr.flh = s.flhReg := rfl
+  have e4 : (s.image vd).hdr.size = s.size := rfl
+  have e5 : (s.image vd).hdr.cap = s.cap := rfl
+  unfold HSet.alloc at ha
+  cases hf : s.free with
+  | cons i0 rest =>
+    rw [hf] at hnd hr hc ha
+    have hi := hr i0 (by simp)
+    simp only [List.length_append, List.length_cons] at hc
+    simp only at ha
+    rw [if_neg (by omega), if_neg (by omega), if_neg (by omega)] at ha
+    cases ha
+    have hflh : s.flhReg = i := by simp [HSet.flhReg, hf]
+    have hnd0 := List.nodup_append.1 hnd
+    have hni : i - 1 + 1 ∉ s.liveSlots := by
+      have : i - 1 + 1 = i := by omega
+      rw [this]
+      exact fun hm => hnd0.2.2 _ hm _ (by simp) rfl
+    have hfn : freeNext s.seq s.free (i - 1 + 1) = some (rest.head?.getD s.seq) := by
+      have : i - 1 + 1 = i := by omega
+      rw [this, hf]; exact freeNext_head
+    have hrd : (HImp.rd (HImp.dflt vd) (s.image vd) i).next = rest.head?.getD s.seq := by
+      rw [rd_image vd s hi.1 (by omega), HSet.recAt_free vd s hni hfn]
+    refine ⟨?_, fun k hk => ?_⟩
+    · unfold HImp.addNode
+      simp only [e2, e3, e4, e5, hflh]
+      rw [if_neg (by omega), hrd]
+      simp only [HImp.wr]
+      rw [if_neg (by omega)]
+      simp only [HSet.hdr, HSet.flhReg_eq]
+    · exact (freeNext_cons_ne' hk).symm
+  | nil =>
+    rw [hf] at hnd hr hc ha
+    simp only [List.append_nil] at hnd hr hc
+    simp only at ha
+    rw [if_neg (by omega), if_neg (by omega), if_neg (by omega), if_neg (by omega),
+      if_neg (by omega)] at ha
+    cases ha
+    have hflh : s.flhReg = s.seq := by simp [HSet.flhReg, hf]
+    refine ⟨?_, fun k hk => ?_⟩
+    · unfold HImp.addNode
+      simp only [e2, e3, e4, e5, hflh, ↓reduceIte]
+      rw [if_neg (by omega)]
+      simp only [HImp.wr]
+      rw [if_neg (by omega)]
+      rfl
+    · rfl
+
+/-! ### `remove` -/
+
+/-- Slot of the last entry of `l`, or `prev` if there is none: the `previous` register. -/
+def lastOr (prev : Nat) (l : List (Nat × β)) : Nat :=
+  match l.getLast? with
+  | some e => e.1
+  | none => prev
+
+theorem lastOr_nil (prev : Nat) : lastOr prev ([] : List (Nat × β)) = prev := rfl
+
+theorem lastOr_cons (prev : Nat) (e : Nat × β) (l : List (Nat × β)) :
+    lastOr prev (e :: l) = lastOr e.1 l := by
+  cases l with
+  | nil => simp [lastOr]
+  | cons e' l =>
+    unfold lastOr
+    rw [List.getLast?_cons_cons]
+    cases hq : (e' :: l).getLast? with
+    | none => simp at hq
+    | some x => rfl
+
+theorem lastOr_concat (prev : Nat) (l : List (Nat × β)) (e : Nat × β) :
+    lastOr prev (l ++ [e]) = e.1 := by
+  simp [lastOr]
+
+theorem chainRemove_decomp {v : β} {ch ch' : List (Nat × β)} {i : Nat}
+    (h : HSet.chainRemove v ch = some (i, ch')) :
+    ∃ pre rest, ch = pre ++ (i, v) :: rest ∧ ch' = pre ++ rest ∧ ∀ e ∈ pre, e.2 ≠ v := by
+  induction ch generalizing ch' with
+  | nil => simp [HSet.chainRemove] at h
+  | cons e rest ih =>
+    unfold HSet.chainRemove at h
+    split at h
+    · rename_i he
+      cases h
+      obtain ⟨a, b⟩ := e
+      simp only at he; subst he
+      exact ⟨[], rest, rfl, rfl, by simp⟩
+    · rename_i hne
+      split at h
+      · rename_i j r' hr
+        cases h
+        obtain ⟨pre, rest', h1, h2, h3⟩ := ih hr
+        refine ⟨e :: pre, rest', by rw [h1]; rfl, by rw [h2]; rfl, ?_⟩
+        intro x hx
+        rcases List.mem_cons.1 hx with rfl | hx
+        · exact hne
+        · exact h3 x hx
+      · cases h
+
+theorem removeScan_notfound (vd : β) (s : HSet β) (h : s.LayoutOk) (v : β) (b : Nat) :
+    ∀ suf pre : List (Nat × β), pre ++ suf ∈ s.chains → (∀ e ∈ suf, e.2 ≠ v) → ∀ fuel prev,
+      HImp.removeScan (HImp.dflt vd) (s.image vd) v b fuel (HSet.headOf suf) prev =
+        (s.image vd, false) := by
+  intro suf
+  induction suf with
+  | nil =>
+    intro _ _ _ fuel prev
+    cases fuel <;> simp [HImp.removeScan, HSet.headOf]
+  | cons e suf ih =>
+    intro pre hm hne fuel prev
+    cases fuel with
+    | zero => rfl
+    | succ f =>
+      obtain ⟨h0, hrd⟩ := rd_live vd s h hm
+      have hih := ih (pre ++ [e]) (by simpa using hm) (fun x hx => hne x (List.mem_cons_of_mem _ hx))
+        f e.1
+      show HImp.removeScan _ _ v b (f + 1) e.1 prev = _
+      unfold HImp.removeScan
+      rw [if_neg h0]
+      simp only [hrd]
+      rw [if_neg (hne e (by simp))]
+      exact hih
+
+theorem removeScan_found (vd : β) (s : HSet β) (h : s.LayoutOk) (v : β) (b i : Nat)
+    (rest : List (Nat × β)) :
+    ∀ mid pre : List (Nat × β), pre ++ (mid ++ (i, v) :: rest) ∈ s.chains → (∀ e ∈ mid, e.2 ≠ v) →
+      ∀ fuel prev, mid.length + 1 ≤ fuel →
+      HImp.removeScan (HImp.dflt vd) (s.image vd) v b fuel (HSet.headOf (mid ++ (i, v) :: rest)) prev =
+        (HImp.removeNode (HImp.dflt vd)
+          (if lastOr prev mid = 0 then
+            HImp.wrB (s.image vd) b fun r => { r with bucket := HSet.headOf rest }
+           else HImp.wr (s.image vd) (lastOr prev mid) fun r => { r with next := HSet.headOf rest }) i,
+         true) := by
+  intro mid
+  induction mid with
+  | nil =>
+    intro pre hm _ fuel prev hf
+    obtain ⟨f, rfl⟩ : ∃ f, fuel = f + 1 := ⟨fuel - 1, by simp at hf; omega⟩
+    obtain ⟨h0, hrd⟩ := rd_live vd s h hm
+    show HImp.removeScan _ _ v b (f + 1) i prev = _
+    unfold HImp.removeScan
+    simp only at h0 hrd
+    rw [if_neg h0]
+    simp only [hrd, lastOr_nil, if_true]
+    rfl
+  | cons e mid ih =>
+    intro pre hm hne fuel prev hf
+    simp only [List.length_cons] at hf
+    obtain ⟨f, rfl⟩ : ∃ f, fuel = f + 1 := ⟨fuel - 1, by omega⟩
+    have hm' : pre ++ e :: (mid ++ (i, v) :: rest) ∈ s.chains := by simpa using hm
+    obtain ⟨h0, hrd⟩ := rd_live vd s h hm'
+    have hih := ih (pre ++ [e]) (by simpa using hm) (fun x hx => hne x (List.mem_cons_of_mem _ hx))
+      f e.1 (by omega)
+    show HImp.removeScan _ _ v b (f + 1) e.1 prev = _
+    unfold HImp.removeScan
+    rw [if_neg h0]
+    simp only [hrd]
+    rw [if_neg (hne e (by simp)), lastOr_cons]
+    exact hih
+
+/-- Dropping an entry from a chain only changes the lookups of that entry and of its predecessor. -/
+theorem chainNext_drop (pre : List (Nat × β)) (x : Nat × β) (rest : List (Nat × β)) {k : Nat}
+    (hk : k ≠ x.1) (hl : k ≠ lastOr 0 pre) :
+    chainNext (pre ++ rest) k = chainNext (pre ++ x :: rest) k := by
+  induction pre with
+  | nil => exact (chainNext_cons_ne hk).symm
+  | cons p pre ih =>
+    rw [lastOr_cons] at hl
+    cases pre with
+    | nil =>
+      have hp : k ≠ p.1 := hl
+      simp only [List.cons_append, List.nil_append]
+      rw [chainNext_cons_ne hp, chainNext_cons_ne hp, chainNext_cons_ne hk]
+    | cons p' pre =>
+      by_cases hp : k = p.1
+      · simp [chainNext, hp]
+      · simp only [List.cons_append] at ih ⊢
+        rw [chainNext_cons_ne hp, chainNext_cons_ne hp]
+        apply ih
+        rw [lastOr_cons] at hl ⊢
+        exact hl
+
+/-- Records of the state after unlinking `(i, v)` from chain `b` and pushing `i` on the free list. -/
+theorem recAt_remove (vd : β) (s s' : HSet β) {b i : Nat} {v : β} {pre rest : List (Nat × β)}
+    (hok : s.LayoutOk) (hch : s.chains[b]? = some (pre ++ (i, v) :: rest))
+    (hc' : s'.chains = s.chains.set b (pre ++ rest))
+    (hf' : s'.free = i :: s.free) (hs' : s'.seq = s.seq)
+    (hnd' : s'.liveSlots.Nodup) (hni' : i ∉ s'.liveSlots) (j : Nat) :
+    s'.recAt vd j =
+      ⟨if lastOr 0 pre = 0 ∧ j = b then HSet.headOf rest else (s.recAt vd j).bucket,
+       if j + 1 = i then s.flhReg
+         else if j + 1 = lastOr 0 pre then HSet.headOf rest else (s.recAt vd j).next,
+       if j + 1 = i then vd else (s.recAt vd j).val⟩ := by
+  have hb : b < s.chains.length := (List.getElem?_eq_some_iff.1 hch).1
+  have hnd := (List.nodup_append.1 hok.nodup).1
+  have hmem := List.mem_of_getElem? hch
+  have hmem' : pre ++ rest ∈ s'.chains := by
+    rw [hc']; exact List.mem_of_getElem? (i := b) (by rw [List.getElem?_set]; simp [hb])
+  have hg : s.chains.getD b [] = pre ++ (i, v) :: rest := by
+    rw [List.getD_eq_getElem?_getD, hch]; rfl
+  have hP : (pre = [] ∧ lastOr 0 pre = 0) ∨
+      (∃ L q, pre = L ++ [q] ∧ lastOr 0 pre = q.1 ∧ q.1 ≠ 0) := by
+    rcases List.eq_nil_or_concat pre with rfl | ⟨L, q, rfl⟩
+    · exact .inl ⟨rfl, rfl⟩
+    · right
+      refine ⟨L, q, by simp, by simp [lastOr_concat], ?_⟩
+      have hm2 : L ++ q :: ((i, v) :: rest) ∈ s.chains := by simpa using hmem
+      exact (rd_live vd s hok hm2).1
+  generalize lastOr 0 pre = P at hP
+  rw [recAt_eq vd s', recAt_eq vd s, hc', headOf_set_getD hb]
+  -- the `next` / `val` registers
+  have hslot : slotReg vd s' (j + 1) =
+      (if j + 1 = i then s.flhReg
+         else if j + 1 = P then HSet.headOf rest else (slotReg vd s (j + 1)).1,
+       if j + 1 = i then vd else (slotReg vd s (j + 1)).2) := by
+    by_cases hji : j + 1 = i
+    · rw [if_pos hji, if_pos hji]
+      unfold slotReg
+      rw [hji, chainsNext_none hni', hs', hf', freeNext_head, HSet.flhReg_eq]
+    · rw [if_neg hji, if_neg hji]
+      by_cases hjp : j + 1 = P
+      · rw [if_pos hjp]
+        rcases hP with ⟨_, hP0⟩ | ⟨L, q, rfl, hPq, _⟩
+        · omega
+        · have hm2 : L ++ q :: ((i, v) :: rest) ∈ s.chains := by simpa using hmem
+          have hm2' : L ++ q :: rest ∈ s'.chains := by simpa using hmem'
+          have c1 := chainsNext_mem hnd hm2
+          have c2 := chainsNext_mem hnd' hm2'
+          unfold slotReg
+          rw [hjp, hPq, c1, c2]
+      · rw [if_neg hjp]
+        have hl : j + 1 ≠ lastOr 0 pre := by
+          rcases hP with ⟨rfl, _⟩ | ⟨L, q, rfl, hPq, _⟩
+          · rw [lastOr_nil]; omega
+          · rw [lastOr_concat]; omega
+        have h1 : chainsNext s'.chains (j + 1) = chainsNext s.chains (j + 1) := by
+          rw [hc']
+          exact chainsNext_set_congr hch (chainNext_drop pre (i, v) rest hji hl)
+        unfold slotReg
+        rw [h1, hs', hf', freeNext_cons_ne' hji]
+  rw [hslot]
+  -- the `bucket` register
+  have hbucket : (if j = b then HSet.headOf (pre ++ rest) else HSet.headOf (s.chains.getD j [])) =
+      (if P = 0 ∧ j = b then HSet.headOf rest else HSet.headOf (s.chains.getD j [])) := by
+    by_cases hj : j = b
+    · subst hj
+      rw [if_pos rfl, hg]
+      rcases hP with ⟨rfl, hP0⟩ | ⟨L, q, rfl, hPq, hq0⟩
+      · rw [if_pos ⟨hP0, rfl⟩]; rfl
+      · rw [if_neg (fun hh => hq0 (hPq ▸ hh.1))]
+        cases L <;> rfl
+    · rw [if_neg hj, if_neg (fun hh => hj hh.2)]
+  rw [hbucket]
+
+end HImpEq
+
 theorem HImp.contains_eq (hash : β → Nat) (vd : β) (s : HSet β) (h : s.Inv hash) (v : β) :
     s.contains hash v = .ok (HImp.contains hash (HImp.dflt vd) (s.image vd) v) := by
-  sorry
+  unfold HSet.contains HImp.contains
+  have e4 : (s.image vd).hdr.size = s.size := rfl
+  rw [e4]
+  by_cases h0 : s.size = 0
+  · rw [if_pos h0, if_pos h0]
+  · rw [if_neg h0, if_neg h0]
+    have hc : s.cap ≠ 0 := by have := h.size_le_cap; omega
+    rw [if_neg hc]
+    obtain ⟨ch, hch⟩ := h.getElem?_bucket hc v
+    rw [hch]
+    simp only
+    have hb : HImp.bucketIndex hash (s.image vd) v = s.bucket hash v := rfl
+    rw [hb, HImpEq.rdB_bucket vd s hch, HSet.image_recs_length]
+    have hm := List.mem_of_getElem? hch
+    rw [HImpEq.scan_image vd s h.layoutOk v ch [] (by simpa using hm) _
+      (by have := HImpEq.chain_length_le s h.layoutOk hm; omega)]
 
 theorem HImp.insert_eq (hash : β → Nat) (vd : β) (s s' : HSet β) (h : s.Inv hash) (v : β) (r : Bool)
     (hi : s.insert hash v = .ok (s', r)) :
     HImp.insert hash (HImp.dflt vd) (s.image vd) v = (s'.image vd, r) := by
-  sorry
+  have hle := h.size_le_cap
+  have hcl := h.cap_le
+  have e4 : (s.image vd).hdr.size = s.size := rfl
+  have e5 : (s.image vd).hdr.cap = s.cap := rfl
+  unfold HImp.insert
+  rw [e4, e5]
+  by_cases hfull : s.size = s.cap
+  · unfold HSet.insert at hi
+    rw [if_pos hfull] at hi ⊢
+    cases hi
+    rfl
+  · rw [if_neg hfull]
+    have hc : s.cap ≠ 0 := by omega
+    obtain ⟨ch, hch⟩ := h.getElem?_bucket hc v
+    have hb : HImp.bucketIndex hash (s.image vd) v = s.bucket hash v := rfl
+    have hm := List.mem_of_getElem? hch
+    have hblt : s.bucket hash v < s.chains.length := (List.getElem?_eq_some_iff.1 hch).1
+    simp only [hb, HImpEq.rdB_bucket vd s hch, HSet.image_recs_length]
+    rw [HImpEq.scan_image vd s h.layoutOk v ch [] (by simpa using hm) _
+      (by have := HImpEq.chain_length_le s h.layoutOk hm; omega)]
+    have hspec := HSet.insert_spec h v
+    unfold HSet.insert at hi hspec
+    rw [if_neg hfull, if_neg hc] at hi hspec
+    simp only [hch] at hi hspec
+    by_cases hhas : HSet.chainHas ch v = true
+    · rw [if_pos hhas] at hi ⊢
+      cases hi
+      rfl
+    · rw [if_neg hhas] at hi hspec ⊢
+      obtain ⟨s1, i, ha, hch1, hcap1, hsz1, hnd1, hr1, hc1, hsl1⟩ := h.alloc_ok (by omega)
+      rw [ha] at hi hspec
+      simp only at hi hspec
+      cases hi
+      have hinv' : HSet.Inv hash { s1 with chains := s1.chains.set (s.bucket hash v) ((i, v) :: ch) } := by
+        rcases hspec with ⟨_, he⟩ | ⟨_, _, s'', he, hinv, _⟩
+        · simp at he
+        · cases he; exact hinv
+      obtain ⟨hadd, hfree⟩ := HImpEq.addNode_image hash vd s h (by omega) v ha
+      rw [hadd]
+      simp only
+      have hi1 := hr1 i (by simp)
+      have hi0 : i ≠ 0 := by omega
+      have hislots : i ≤ s.slots := by omega
+      congr 1
+      apply HImpEq.image_ext
+      · simp only [HImp.wr, HImp.wrB, if_neg hi0]
+        rfl
+      · simp only [HImp.wr, HImp.wrB, if_neg hi0, List.length_modify, HSet.image_recs_length]
+        show s.slots = (s1.chains.set _ _).length
+        rw [List.length_set, hch1]; rfl
+      · intro j hj
+        have hj' : j < s.slots := by
+          have : (s1.chains.set (s.bucket hash v) ((i, v) :: ch)).length = s.slots := by
+            rw [List.length_set, hch1]; rfl
+          exact this ▸ hj
+        rw [HImpEq.recAt_insert (i := i) (v := v) vd s _ hch (by simp only [hch1])
+          (List.nodup_append.1 hinv'.nodup).1 hfree j]
+        simp only [HImp.wr, HImp.wrB, if_neg hi0, HImpEq.modify_getElem?,
+          HSet.image_recs_getElem? vd s hj']
+        generalize HSet.recAt vd s j = rc
+        have e1 : (i - 1 = j) = (j + 1 = i) := propext ⟨fun _ => by omega, fun _ => by omega⟩
+        have e2 : (s.bucket hash v = j) = (j = s.bucket hash v) := propext ⟨Eq.symm, Eq.symm⟩
+        simp only [e1, e2]
+        by_cases hjb : j = s.bucket hash v <;> by_cases hji : j + 1 = i
+        · simp only [if_pos hjb, if_pos hji, Option.map_some]
+        · simp only [if_pos hjb, if_neg hji, Option.map_some]
+        · simp only [if_neg hjb, if_pos hji, Option.map_some]
+        · simp only [if_neg hjb, if_neg hji]
 
 theorem HImp.remove_eq (hash : β → Nat) (vd : β) (s s' : HSet β) (h : s.Inv hash) (v : β) (r : Bool)
     (hr : s.remove hash v = .ok (s', r)) :
     HImp.remove hash (HImp.dflt vd) (s.image vd) v = (s'.image vd, r) := by
-  sorry
+  have hle := h.size_le_cap
+  have hcl := h.cap_le
+  have hok := h.layoutOk
+  have e4 : (s.image vd).hdr.size = s.size := rfl
+  unfold HImp.remove
+  rw [e4]
+  have hspec := HSet.remove_spec h v
+  unfold HSet.remove at hr hspec
+  by_cases h0 : s.size = 0
+  · rw [if_pos h0] at hr ⊢
+    cases hr
+    rfl
+  · rw [if_neg h0] at hr hspec ⊢
+    have hc : s.cap ≠ 0 := by omega
+    rw [if_neg hc] at hr hspec
+    obtain ⟨ch, hch⟩ := h.getElem?_bucket hc v
+    have hb : HImp.bucketIndex hash (s.image vd) v = s.bucket hash v := rfl
+    have hm := List.mem_of_getElem? hch
+    have hblt : s.bucket hash v < s.chains.length := (List.getElem?_eq_some_iff.1 hch).1
+    simp only [hch] at hr hspec
+    simp only [hb, HImpEq.rdB_bucket vd s hch, HSet.image_recs_length]
+    cases hcr : HSet.chainRemove v ch with
+    | none =>
+      rw [hcr] at hr
+      simp only at hr
+      cases hr
+      have hnv := HSet.chainRemove_none hcr
+      exact HImpEq.removeScan_notfound vd s hok v _ ch [] (by simpa using hm)
+        (fun e he hev => hnv (List.mem_map.2 ⟨e, he, hev⟩)) _ _
+    | some p =>
+      obtain ⟨i, ch'⟩ := p
+      rw [hcr] at hr hspec
+      simp only at hr hspec
+      cases hr
+      have hinv' : HSet.Inv hash ⟨s.chains.set (s.bucket hash v) ch', s.size - 1, s.cap,
+          i :: s.free, s.seq⟩ := by
+        rcases hspec with ⟨_, he⟩ | ⟨_, s'', he, hinv, _⟩
+        · simp at he
+        · cases he; exact hinv
+      obtain ⟨pre, rest, rfl, rfl, hpre⟩ := HImpEq.chainRemove_decomp hcr
+      have hlen := HImpEq.chain_length_le s hok hm
+      rw [HImpEq.removeScan_found vd s hok v _ i rest pre [] (by simpa using hm) hpre _ 0
+        (by simp only [List.length_append, List.length_cons] at hlen; omega)]
+      have hnd' := List.nodup_append.1 hinv'.nodup
+      have hi0 : i ≠ 0 := (HImpEq.rd_live vd s hok hm).1
+      congr 1
+      apply HImpEq.image_ext
+      · unfold HImp.removeNode
+        split <;> simp only [HImp.wr, HImp.wrB, if_neg hi0] <;> (try split) <;>
+          simp [HSet.hdr, HSet.flhReg, HSet.image]
+      · have : (s.chains.set (s.bucket hash v) (pre ++ rest)).length = s.slots := by
+          rw [List.length_set]; rfl
+        show _ = (s.chains.set (s.bucket hash v) (pre ++ rest)).length
+        rw [this]
+        unfold HImp.removeNode
+        split <;> simp only [HImp.wr, HImp.wrB, if_neg hi0] <;> (try split) <;>
+          simp [HSet.image_recs_length]
+      · intro j hj
+        have hj' : j < s.slots := by
+          have : (s.chains.set (s.bucket hash v) (pre ++ rest)).length = s.slots := by
+            rw [List.length_set]; rfl
+          exact this ▸ hj
+        rw [HImpEq.recAt_remove vd s
+          ⟨s.chains.set (s.bucket hash v) (pre ++ rest), s.size - 1, s.cap, i :: s.free, s.seq⟩
+          hok hch rfl rfl rfl hnd'.1 (fun hmm => hnd'.2.2 _ hmm _ (by simp) rfl) j]
+        generalize HImpEq.lastOr 0 pre = P
+        have e3 : (s.image vd).hdr.flh = s.flhReg := rfl
+        have e1 : (i - 1 = j) = (j + 1 = i) := propext ⟨fun _ => by omega, fun _ => by omega⟩
+        have e2 : (s.bucket hash v = j) = (j = s.bucket hash v) := propext ⟨Eq.symm, Eq.symm⟩
+        by_cases hP : P = 0
+        · rw [if_pos hP]
+          have e6 : ¬ (j + 1 = 0) := by omega
+          simp only [HImp.removeNode, HImp.wr, HImp.wrB, if_neg hi0, HImpEq.modify_getElem?,
+            HSet.image_recs_getElem? vd s hj', e3, e1, e2, hP, true_and, if_neg e6]
+          generalize HSet.recAt vd s j = rc
+          have e8 : (HImp.dflt vd).val = vd := rfl
+          rw [e8]
+          by_cases hjb : j = s.bucket hash v <;> by_cases hji : j + 1 = i
+          · simp only [if_pos hjb, if_pos hji, Option.map_some]
+          · simp only [if_pos hjb, if_neg hji, Option.map_some]
+          · simp only [if_neg hjb, if_pos hji, Option.map_some]
+          · simp only [if_neg hjb, if_neg hji]
+        · rw [if_neg hP]
+          have e7 : (P - 1 = j) = (j + 1 = P) := propext ⟨fun _ => by omega, fun _ => by omega⟩
+          simp only [HImp.removeNode, HImp.wr, if_neg hi0, HImpEq.modify_getElem?,
+            HSet.image_recs_getElem? vd s hj', e3, e1, e7, hP, false_and, if_false]
+          generalize HSet.recAt vd s j = rc
+          have e8 : (HImp.dflt vd).val = vd := rfl
+          rw [e8]
+          by_cases hjp : j + 1 = P <;> by_cases hji : j + 1 = i
+          · simp only [if_pos hjp, if_pos hji, Option.map_some]
+          · simp only [if_pos hjp, if_neg hji, Option.map_some]
+          · simp only [if_neg hjp, if_pos hji, Option.map_some]
+          · simp only [if_neg hjp, if_neg hji]
 
 /-- The iterator of the read-only view walks exactly the model's `iter`. -/
 theorem HImp.iter_eq (hash : β → Nat) (vd : β) (s : HSet β) (h : s.Inv hash) :
     HImp.iter (HImp.dflt vd) (s.image vd) = s.iter := by
-  sorry
+  unfold HImp.iter HSet.iter
+  have e5 : (s.image vd).hdr.cap = s.cap := rfl
+  rw [e5, HSet.image_recs_length]
+  have hcl := h.cap_le
+  have htake : s.chains.take s.cap = (List.range s.cap).map (fun b => s.chains.getD b []) := by
+    apply List.ext_getElem?
+    intro j
+    rw [List.getElem?_take, List.getElem?_map]
+    by_cases hj : j < s.cap
+    · rw [if_pos hj, List.getElem?_range hj]
+      have : j < s.chains.length := by unfold HSet.slots at hcl; omega
+      simp [List.getD_eq_getElem?_getD, List.getElem?_eq_getElem this]
+    · rw [if_neg hj, List.getElem?_eq_none (by simpa using hj)]
+      rfl
+  rw [htake, List.flatMap_map, List.map_flatMap]
+  apply HImpEq.flatMap_congr'
+  intro b hb
+  have hb' : b < s.cap := List.mem_range.1 hb
+  have hlt : b < s.chains.length := by unfold HSet.slots at hcl; omega
+  have hch : s.chains[b]? = some (s.chains.getD b []) := by
+    simp [List.getD_eq_getElem?_getD, List.getElem?_eq_getElem hlt]
+  have hm := List.mem_of_getElem? hch
+  rw [HImpEq.rdB_bucket vd s hch]
+  simp only [id]
+  exact HImpEq.chainVals_image vd s h.layoutOk _ [] (by simpa using hm) _
+    (by have := HImpEq.chain_length_le s h.layoutOk hm; omega)
 
 end Stevia
